@@ -32,9 +32,10 @@ manifest = dict(
                baseline_off_cmd="cd /repo && /venv/bin/python -m pytest -ra -q -p no:cacheprovider --timeout=900 --continue-on-collection-errors",
                source_commits=[], add_only=True),
     engines=[
-        dict(name="E1 xstate", path="mc/xstate.py", serves_properties=["C06", "C03", "C05"], kind_free_text="explicit-state / stateless exploration of the real adaptive loop under scripted solver, error estimator and controller"),
+        dict(name="E1 xstate", path="mc/xstate.py", serves_properties=["C06", "C03", "C05", "C12", "C13"], kind_free_text="explicit-state / stateless exploration of the real adaptive loop under scripted solver, error estimator and controller"),
         dict(name="E2 xprod", path="mc/props", serves_properties=[c["property_id"] for c in checks], kind_free_text="exhaustive product-space enumeration of short API programs against exact reference models (mc/refmodel)"),
         dict(name="E3 xops", path="mc/props/C08.py", serves_properties=["C08", "C09"], kind_free_text="breadth-first exploration of operation sequences on the Gaussian algebra with a lock-step dense reference"),
+        dict(name="E4 tla", path="tla/AdaptiveLoop.tla + mc/replay_tlc.py", serves_properties=["C06"], kind_free_text="TLA+ model of the stepping protocol explored by TLC; every edge of the dumped state graph is replayed on the real RejectionLoop.loop (edge-level conformance)"),
     ],
     checks=checks,
     not_applicable=na,
